@@ -13,6 +13,7 @@ check that the result is (constrained) Delaunay; it is not proved here.
 -/
 import Spade.Properties.C04
 import Spade.Properties.C05
+import Spade.Proofs.RemoveInv
 namespace Spade
 open AState
 
@@ -46,5 +47,24 @@ theorem C11_insert_remove_data (a : AState) (p : Pt) (d : Nat) (hnew : a.find p 
 theorem C11_remove_constraints (a : AState) (i : Nat) (c : Pt × Pt) :
     c ∈ (a.remove i).1.cons ↔ c ∈ a.cons ∧ c.1 ≠ a.posOf i ∧ c.2 ≠ a.posOf i :=
   C04_remove_exact a i c
+
+
+/-! ### on the removal model (`Spade/Algo/Remove.lean`)
+
+`remove_core` with `isolate_vertex_and_fill_hole` / `remesh_edge_ring`, `isolate_convex_hull_vertex`,
+`disconnect_edge_strip`, `legalize_edges_after_removal`, `cleanup_isolated_vertex`
+(`swap_remove_undirected_edge`, `fix_handle_swap`, `swap_remove_face`), `swap_remove_vertex` and
+`remove_when_degenerate`, transliterated statement by statement; the driver compares vertex, edge
+and face arrays index for index after every removal from a plain triangulation (all families: the
+removal path only uses the exact predicates). -/
+
+/-- the removal model changes the vertex arrays by exactly one `swap_remove` at the removed index -/
+theorem C11_model_remove_is_swap_remove (s t : St) (v : Nat) (hsz : s.data.size = s.nV)
+    (h : s.removeM v = some t) :
+    t.pos = St.swapRemoveA s.pos v ∧ t.data = St.swapRemoveA s.data v :=
+  St.removeM_vertices s t v hsz h
+
+/-- non-vacuity: removing an inner vertex and a hull vertex of a dumped state runs through the model -/
+example : (exFive.removeM 4).isSome = true ∧ (exFive.removeM 0).isSome = true := by decide +kernel
 
 end Spade
